@@ -61,8 +61,14 @@ claim("C01", SIM + "; oracle: first-principles re-validation of every accepted e
       "trusted: refotr key schedule/X-block helpers and Go stdlib DSA; cryptographic strength is not tested",
       "DESIGN.md section 5 C01")
 
+claim("C03", SIM + "; oracle: wire monitor over every output of every API call (raw, base64-decoded, reassembled fragments) + wrong-key decryption probes",
+      "PRNG-generated lifecycle histories (plaintext, AKE in progress, encrypted, finished after peer End, own End, re-AKE, injected errors, crash/restart, SMP, extra key, fragment sizes) under PRNG-chosen policy sets for both parties. Every message any call returns is searched for every text the party was ever given; a readable occurrence is legitimate only for the text of the current Send in plaintext state without require-encryption. "
+      "Send in finished state must emit nothing; under require-encryption only a query. Ciphertexts must not decrypt to the text under the zero key, the MAC key, the receiving key or a previous session's key.",
+      "trusted: harness lifecycle tracking from observable events, refotr key derivation for the wrong-key probes",
+      "DESIGN.md section 5 C03")
+
 _todo = "check not built yet in this session (see DESIGN.md section 12 build order)"
-for pid in ["C03", "C11", "C12", "C13", "C14", "C15", "C16", "C18", "C19", "C20"]:
+for pid in [ "C11", "C12", "C13", "C14", "C15", "C16", "C18", "C19", "C20"]:
     NA[pid] = _todo
 NA["C17"] = ("pure function of one input (parse(serialise(x)) = x): no schedule, clock, fault, peer or history for a simulator to vary; "
              "deterministic simulation does not apply (DESIGN.md section 5 C17)")
